@@ -95,7 +95,7 @@ public:
         verif::ctx_op("reconnect");
         port.reconnect(addr_t(a, rnd));
         note("connect peer#" + std::to_string(peer_index));
-        ms = MS_IDLE; exch_active = false; tainted = false; unmodelled = false;
+        ms = MS_IDLE; exch_active = false; tainted = false; unmodelled = false; peripheral_completed_alone = false;
         completed_on_conn = false; disturbed = false; expected_status = 0; pairings_completed = 0;
         last_failed = false; ever_exchange = false;
         have_armed = false; encinfo_sent = 0; centralid_sent = 0;
@@ -559,7 +559,7 @@ private:
         if (completed_on_conn) disturbed = true;
         if (exch_active && ms != MS_DONE) last_failed = true;
         if (io_env.pending) { stale_response = io_env.pending; io_env.pending = nullptr; }   // the application does not learn that the exchange ended
-        ms = MS_IDLE; exch_active = false; tainted = false; unmodelled = false; deferred_fail = false; have_mrand = false;
+        ms = MS_IDLE; exch_active = false; tainted = false; unmodelled = false; deferred_fail = false; have_mrand = false; peripheral_completed_alone = false;
         ea_state = EA_NONE; user_asked = false;
     }
 
@@ -577,7 +577,7 @@ private:
                                             (preq[3] & 0x04) != 0, (pres[3] & 0x04) != 0);
                 if (io_env.pending) { stale_response = io_env.pending; }
                 io_env.reset_exchange_counters();
-                exch_active = true; ever_exchange = true; last_failed = false; tainted = false; unmodelled = false; have_mrand = false;
+                exch_active = true; ever_exchange = true; last_failed = false; tainted = false; unmodelled = false; have_mrand = false; peripheral_completed_alone = false;
                 ea_state = EA_NONE; user_asked = false; deferred_fail = false; initiator_abort = false;
                 for (auto& x : rb_choice) x = rng.byte();
                 ms = proto_lesc ? MS_S_REQ : MS_L_REQ;
@@ -651,7 +651,7 @@ private:
         if (n == 0) {
             if (!tainted) viol("C32", "C32:legacy:srand_revealed_without_confirm_match",
                 "Pairing Random " + verif::hex(out) + " sent although the received Mrand does not reproduce the received Mconfirm " + verif::hex(mconfirm_rx.data(), 16) + " under c1 with the TK of this exchange");
-            tainted = true; ms = MS_DONE;
+            tainted = true; peripheral_completed_alone = true; ms = MS_DONE;
             return;
         }
         // completed from the central's point of view when Sconfirm verifies under the TK it used
@@ -682,14 +682,14 @@ private:
                 if (late_answer_given) viol("C32", "C32:user_response:late_answer_revives_pairing", "DHKey check " + verif::hex(out) + " emitted after the application answered a question of an exchange that is over");
                 else viol("C32", "C32:dhkey:eb_out_of_protocol", "DHKey check " + verif::hex(out) + " emitted while no exchange is at the DHKey stage");
             }
-            tainted = true; return;
+            tainted = true; peripheral_completed_alone = true; return;
         }
         bool ok = true;
         if (ea_state == EA_NONE) { if (!tainted) viol("C32", "C32:dhkey:eb_before_ea", "DHKey check " + verif::hex(out) + " emitted before the central's DHKey check was received (user answer=" + std::to_string(io_env.answered) + ")"); ok = false; }
         else if (ea_state == EA_WRONG) { if (!tainted) viol("C32", "C32:dhkey:eb_after_wrong_ea", "DHKey check " + verif::hex(out) + " emitted although the central's DHKey check does not verify"); ok = false; }
         if (ok && user_asked && io_env.answered == -1) { if (!tainted) viol("C32", "C32:dhkey:eb_while_user_pending", "DHKey check emitted while the numeric comparison question is unanswered"); ok = false; }
         if (ok && user_asked && io_env.answered == 0) { if (!tainted) viol("C32", "C32:dhkey:eb_after_user_rejected", "DHKey check emitted although the user rejected the numeric comparison"); ok = false; }
-        if (!ok) { tainted = true; ms = MS_DONE; return; }
+        if (!ok) { tainted = true; peripheral_completed_alone = true; ms = MS_DONE; return; }
         u128 eb; std::copy(out.begin() + 1, out.end(), eb.begin());
         const u128 ra = initiator_ra();
         if (eb != expected_eb(ra)) {
@@ -799,7 +799,14 @@ private:
         const bool local_ok = completed_on_conn && zero;
         const char* situation = completed_on_conn ? (disturbed ? "completed_then_disturbed" : "completed")
                               : exch_active ? "pairing_in_progress" : last_failed ? "pairing_failed" : ever_exchange ? "idle_again" : "fresh_connection";
-        if (tainted || unmodelled) { M.count("skipped_tainted_exchange"); return; }
+        if (tainted || unmodelled) {
+            // not judged, except: a key offered for an exchange that only the peripheral considers completed
+            if (peripheral_completed_alone && !completed_on_conn && zero && got.first && !db_has)
+                viol("C33", std::string("C33:find_key:offered_without_pairing_or_bond:zero:completed_by_peripheral_alone:") + (proto_lesc ? "lesc" : "legacy"),
+                     "find_key(0,0) offers " + verif::hex(got.second.data(), 16) + " although the central's " + (proto_lesc ? "DHKey check" : "confirm value") + " never entitled the peripheral to complete this pairing");
+            else M.count("skipped_tainted_exchange");
+            return;
+        }
         if (got.first) {
             if (!local_ok && !db_has) {
                 viol("C33", std::string("C33:find_key:offered_without_pairing_or_bond:") + qclass + ":" + situation,
@@ -841,11 +848,20 @@ private:
         int st = port.status();
         if (st == 3) st = 2;        // authenticated_key_with_secure_connection counts as authenticated
         M.eval();
-        if (tainted || unmodelled) { M.count("skipped_tainted_exchange"); return; }
+        static const char* mgr[] = { "legacy_manager", "lesc_only_manager", "combined_manager" };
         static const char* sn[] = { "no_key", "unauthenticated_key", "authenticated_key" };
         const std::string stn = (st >= 0 && st <= 2) ? sn[st] : "invalid";
+        if (tainted || unmodelled) {
+            // not judged, except: a key reported for an exchange that only the peripheral considers completed
+            if (peripheral_completed_alone && !completed_on_conn && st != 0)
+                viol("C35", std::string("C35:status:key_reported_without_completed_pairing:") + mgr[port.variant] + ":" + stn + ":completed_by_peripheral_alone",
+                     "local_device_pairing_status() = " + stn + " although no pairing exchange completed on this connection: the central's "
+                     + (proto_lesc ? "DHKey check" : "confirm value") + " never entitled the peripheral to send its final message");
+            else M.count("skipped_tainted_exchange");
+            return;
+        }
         if (!completed_on_conn) {
-            if (st != 0) viol("C35", "C35:status:key_reported_without_completed_pairing:" + stn, "local_device_pairing_status() = " + stn + " although no pairing completed on this connection");
+            if (st != 0) viol("C35", std::string("C35:status:key_reported_without_completed_pairing:") + mgr[port.variant] + ":" + stn, "local_device_pairing_status() = " + stn + " although no pairing completed on this connection");
             M.cls("status_without_pairing");
             return;
         }
@@ -855,7 +871,6 @@ private:
         if (disturbed && st == 0) { M.cls("status_after_given_up_pairing"); return; }
         if (st != expected_status) {
             std::string key;
-            static const char* mgr[] = { "legacy_manager", "lesc_only_manager", "combined_manager" };
             if (expected_status == 1 && st == 2) key = std::string("C35:status:authenticated_after_just_works:") + proto + ":" + mgr[port.variant] + ":peripheral_table_entry_" + sel_name;
             else if (expected_status == 2 && st == 1) key = std::string("C35:status:unauthenticated_after_") + smspec::method_name(completed_method) + ":" + proto + ":" + mgr[port.variant];
             else key = std::string("C35:status:") + stn + "_after_completed_" + smspec::method_name(completed_method) + ":" + proto + ":" + mgr[port.variant];
@@ -880,6 +895,9 @@ private:
     int  ms = MS_IDLE;
     bool proto_lesc = false;
     bool exch_active = false, tainted = false, unmodelled = false, deferred_fail = false, initiator_abort = false;
+    // the peripheral sent its final message (Srand / Eb) although the central's confirm / DHKey check did not entitle it to:
+    // no pairing exchange completed from the central's point of view
+    bool peripheral_completed_alone = false;
     bool completed_on_conn = false, disturbed = false, last_failed = false, ever_exchange = false, completed_in_this_call = false;
     int  expected_status = 0, completed_method = 0;
     unsigned pairings_completed = 0;
